@@ -99,13 +99,15 @@ func isPublic(fname string) bool {
 
 func getContextFromFilename(fname string) keystore.KeyContext {
 	if isHistoricalFilename(fname) {
-		fname = filepath.Dir(fname)
+		// a rotated key "<key file>.old/<timestamp>" keeps the context of its key file
+		fname = strings.TrimSuffix(filepath.Dir(fname), historyDirSuffix)
 	}
 	if fname == PoisonKeyFilename {
 		return keystore.NewKeyContext(keystore.PurposePoisonRecordKeyPair, []byte(fname))
 	}
 	if fname == getSymmetricKeyName(PoisonKeyFilename) {
-		return keystore.NewKeyContext(keystore.PurposePoisonRecordSymmetricKey, []byte(fname[:len(fname)-len("_sym")]))
+		// the keystore encrypts the poison record symmetric key with its whole file name as context
+		return keystore.NewKeyContext(keystore.PurposePoisonRecordSymmetricKey, []byte(fname))
 	}
 	fname = filepath.Base(fname)
 	if strings.HasSuffix(fname, ".old") {
